@@ -1,0 +1,12 @@
+//go:build verif
+
+package switchr
+
+import "github.com/mycoria/mycoria/frame"
+
+// VerifHandleFrame runs the switch's frame handler on one frame, exactly as
+// the switch worker does for a frame taken from its input channel.
+// Verification hook: only compiled with the "verif" build tag.
+func (s *Switch) VerifHandleFrame(f frame.Frame) error {
+	return s.handleFrame(f)
+}
